@@ -739,6 +739,7 @@ impl<const N: usize> Live<N> {
                 }
                 match e {
                     Error::NotReady if can => c.fail("[C03] NotReady although a completion was pending"),
+                    Error::WrongToken if !can && !self.hostile => c.fail(format!("[C03] pop_used({}) = WrongToken although nothing was pending (NotReady: the caller would give up instead of polling again)", token)),
                     Error::WrongToken if peek == Some(token) => c.fail("[C03] WrongToken for the token at the head of the used ring"),
                     _ => {}
                 }
